@@ -11,7 +11,9 @@ import (
 	"sync"
 	"time"
 
+	"github.com/herohde/morlock/pkg/board"
 	"github.com/herohde/morlock/pkg/engine"
+	"github.com/herohde/morlock/pkg/eval"
 	"github.com/herohde/morlock/pkg/search"
 	"github.com/herohde/morlock/pkg/search/searchctl"
 	"github.com/seekerror/stdlib/pkg/lang"
@@ -234,5 +236,69 @@ func determinism(args []string) {
 		}
 		wg.Wait()
 	}
+	// the game goes on while a halted search is still unwinding: a search that works on its board (a move
+	// pushed, taken back late) must not disturb the engine's own game - its state must be what a fresh engine
+	// holds after the same moves
+	for i, c := range cases {
+		if i >= 6 {
+			break
+		}
+		legalNext := extend(r, c.game, 1)
+		if len(legalNext.moves) == len(c.game.moves) {
+			continue // no legal continuation
+		}
+		slow := &slowUnwind{entered: make(chan struct{}, 8)}
+		e := engine.New(ctx, "slow-unwind", "verif", slow)
+		if !setup(ctx, e, c.game) {
+			continue
+		}
+		if _, err := e.Analyze(ctx, searchctl.Options{}); err != nil {
+			continue
+		}
+		select {
+		case <-slow.entered: // depth 2 is running with a move pushed on its board
+		case <-time.After(5 * time.Second):
+		}
+		_, _ = e.Halt(ctx)
+		ok := e.Move(ctx, legalNext.moves[len(legalNext.moves)-1]) == nil
+		time.Sleep(3 * time.Millisecond) // the search takes its move back meanwhile
+		ref, _ := ucih.Build(ctx, ucih.EngineSpec{Name: "morlock"})
+		if !ok || !setup(ctx, ref, legalNext) {
+			continue
+		}
+		key := fmt.Sprintf("slow-unwind|%v|%v", legalNext.fenOf(), strings.Join(legalNext.moves, " "))
+		w.Emit(out.M{"op": "det", "key": key, "how": "move-while-halted-search-unwinds", "complete": true,
+			"res":    out.M{"depth": 0, "score": sdump.ResultOf(0, eval.ZeroScore, nil, nil).Score, "pv": [][]int{}, "nodes": 0},
+			"state0": engineState(ref), "state1": engineState(e)})
+	}
 	w.Close()
+}
+
+// slowUnwind is a root search that, like a real one, works on the board it is given: from depth 2 on it pushes
+// a move, waits to be halted, and takes the move back a little later.
+type slowUnwind struct {
+	entered chan struct{}
+}
+
+func (s *slowUnwind) Search(ctx context.Context, sctx *search.Context, b *board.Board, depth int) (uint64, eval.Score, []board.Move, error) {
+	var first board.Move
+	found := false
+	for _, m := range b.Position().PseudoLegalMoves(b.Turn()) {
+		if _, ok := b.Position().Move(m); ok {
+			first, found = m, true
+			break
+		}
+	}
+	if depth < 2 || !found {
+		if found {
+			return 1, eval.ZeroScore, []board.Move{first}, nil
+		}
+		return 1, eval.ZeroScore, nil, nil
+	}
+	b.PushMove(first)
+	s.entered <- struct{}{}
+	<-ctx.Done()
+	time.Sleep(time.Millisecond)
+	b.PopMove()
+	return 0, eval.InvalidScore, nil, search.ErrHalted
 }
